@@ -244,6 +244,36 @@ def check_decode_objects(res):
             res.evaluations += 1
             if type(r) is not str or r != txt:
                 res.violate("decode-wrong", "decode.%s(%r) = %r" % (enc, b, r))
+    # decoders obtained first and called later, interleaved: each decodes with the encoding it was asked for
+    encs = ("utf8", "latin1", "cp1251", "utf_16", "koi8_r", "ascii")
+    held = {enc: getattr(F.decode, enc) for enc in encs}
+    for order in (encs, tuple(reversed(encs))):
+        for enc in order:
+            for txt in ("plain", "caf\u00e9", "\u0416\u0443\u043a"):
+                try:
+                    b = txt.encode(enc)
+                except UnicodeEncodeError:
+                    continue
+                getattr(F.decode, order[0])  # another look-up in between
+                try:
+                    r = held[enc](b)
+                except Exception as e:
+                    r = "%s: %s" % (type(e).__name__, e)
+                res.evaluations += 1
+                res.count("held_decoders_called")
+                if r != txt:
+                    res.violate("decode-wrong", "d = decode.%s, held while other decoders were looked up: d(%r) = %r, expected %r" % (enc, b, r, txt))
+    # the same through templates: a decoder aliased in a module block, and two decode filters in one expression list
+    from mako.template import Template
+    t = Template("<%! from mako.filters import decode\nto_u = decode.utf8\nto_l = decode.latin1 %>${a | n,to_u}|${b | n,to_l}|${a | n,decode.utf8}|${b | n,decode.latin1}")
+    try:
+        out = t.render_unicode(a="caf\u00e9".encode("utf-8"), b="caf\u00e9".encode("latin-1"))
+    except Exception as e:
+        out = "%s: %s" % (type(e).__name__, e)
+    res.evaluations += 1
+    res.count("held_decoders_called")
+    if out != "caf\u00e9|caf\u00e9|caf\u00e9|caf\u00e9":
+        res.violate("decode-wrong", "decoders aliased in a module block and used as filters rendered %r" % out)
     res.nontrivial("decode-objects")
 
 
